@@ -73,6 +73,7 @@ static void cat_child(const void *job, size_t n) {
 	for (int e = from; e < to && e < N_ENTRIES; e++) {
 		const char *name = entry_name(e);
 		for (int v = 0; v < entry_variants(e); v++) {
+			vs_set_label("state-set-up"); vs_set_thread_label(1, "state-set-up");      /* what the set-up nests is not attributed to the call under test */
 			vs_sleep_us(2500000); hx_quiesce();
 			if (g_backlog) make_backlog();
 			vs_set_label(name); vs_set_thread_label(1, name);
@@ -139,7 +140,7 @@ static void cat_res(long idx, const run_res_t *r) {
 	(void) idx; const char *l;
 	for (int i = 0; (l = res_line(r, 'G', i)); i++) { char a[48], b[48], label[72]; int bits; label[0] = 0;
 		if (sscanf(l, "%47s %47s %d %71[^\n]", a, b, &bits, label) >= 3) { int x = lkidx(a), y = lkidx(b); if (!G[x][y]) snprintf(Glabel[x][y], 72, "%s", label); G[x][y] |= bits;
-			if (strcmp(label, "bidib_stop") && strcmp(label, "bidib_send_sys_reset") && strcmp(label, "start-up")) { int k; for (k = 0; k < nGl[x][y]; k++) if (!strcmp(Glabels[x][y][k], label)) break;
+			if (strcmp(label, "bidib_stop") && strcmp(label, "bidib_send_sys_reset") && strcmp(label, "start-up") && strcmp(label, "state-set-up")) { int k; for (k = 0; k < nGl[x][y]; k++) if (!strcmp(Glabels[x][y][k], label)) break;
 				if (k == nGl[x][y] && k < MAXLAB) snprintf(Glabels[x][y][nGl[x][y]++], 72, "%s", label); } } }
 }
 static size_t cat_gen(long idx, uint8_t *payload, char *human, size_t hn) {
@@ -206,6 +207,7 @@ int c11_run(const char *tier) {
 		int L = found_len[c]; char desc[600]; size_t o = 0;
 		for (int i = 0; i < L; i++) { int a = found_cycles[c][i], b = found_cycles[c][(i + 1) % L]; o += (size_t) snprintf(desc + o, sizeof desc - o, "%s -[%d call(s), first %s]-> ", lkname[a], nGl[a][b], Glabel[a][b]); }
 		rep_note("lock-order cycle candidate %d: %s(back to start)", c, desc);
+		for (int i = 0; i < L; i++) { int a = found_cycles[c][i], b = found_cycles[c][(i + 1) % L]; char all[900]; size_t ao = 0; all[0] = 0; for (int k = 0; k < nGl[a][b] && ao + 80 < sizeof all; k++) ao += (size_t) snprintf(all + ao, sizeof all - ao, "%s; ", Glabels[a][b][k]); rep_note("  edge %s -> %s exhibited by: %s", lkname[a], lkname[b], all); }
 		if (L > 3) continue;
 		/* every combination of one exhibiting call per edge (at most 36 per cycle), in both states, explored under E1 */
 		int idx[3] = {0, 0, 0}, combos = 0, confirmed = 0;
